@@ -53,25 +53,32 @@ def static_checks(repo):
 
 
 def bounded(check):
-    """bounded stand-in / native witness search for injectivity of the complete serializer"""
+    """bounded stand-ins / native witness search: injectivity of the complete serializer; the real verify() over revocation / signature scenarios"""
     import json, os, subprocess
     lvl = 1 if check.tier == "quick" else 2
     here = os.path.dirname(os.path.dirname(os.path.abspath(__file__)))
-    p = subprocess.run(["/venv/bin/python", os.path.join(here, "bounded", "serializer_injective.py"), check.repo.root, str(lvl)],
-                       stdout=subprocess.PIPE, stderr=subprocess.PIPE, universal_newlines=True, timeout=3000)
-    line = (p.stdout.strip().splitlines() or ["{}"])[-1]
-    try:
-        info = json.loads(line)
-    except ValueError:
-        info = {"error": (p.stderr or p.stdout)[-400:]}
-    out = dict(name="different playbook values serialize to different texts", level="bounded",
-               bound="level %d: 22-27 adversarial strings, 3 integers, lists (<= 2 elements) and mappings (1-2 entries) of them, nested examples" % lvl,
-               result=info, violation=(p.returncode == 1), error=(p.returncode not in (0, 1)))
-    if p.returncode == 1:
-        os.makedirs(os.path.join(here, "replays"), exist_ok=True)
-        path = os.path.join(here, "replays", "C18-bounded.json")
-        json.dump(dict(obligation="bounded:serializer-injective", witness=info,
-                       replay_cmd="/venv/bin/python %s %s %d" % (os.path.join(here, "bounded", "serializer_injective.py"), check.repo.root, lvl)),
-                  open(path, "w"), indent=1)
-        out["replay"] = path
-    return [out]
+    jobs = [("different playbook values serialize to different texts", "serializer_injective.py", [str(lvl)],
+             "level %d: 22-27 adversarial strings, 3 integers, lists (<= 2 elements) and mappings (1-2 entries, keys of every scalar type) of them, "
+             "nested examples" % lvl, "C18-bounded.json"),
+            ("verify(): accepted iff validly signed and not revoked (any spelling of the listed digest); the digest ignores exactly the dynamic parts",
+             "playbook_verify_scenarios.py", [], "1 play x {valid, invalid signature} x 3 spellings of the revoked digest; 2 dynamic-part edits, 7 signed-part edits "
+             "(GPG's verdict and the bytes of the shipped revocation list are substituted)", "C18-bounded-verify.json")]
+    outs = []
+    for name, script, args, bound, rfile in jobs:
+        p = subprocess.run(["/venv/bin/python", os.path.join(here, "bounded", script), check.repo.root] + args,
+                           stdout=subprocess.PIPE, stderr=subprocess.PIPE, universal_newlines=True, timeout=3000)
+        line = (p.stdout.strip().splitlines() or ["{}"])[-1]
+        try:
+            info = json.loads(line)
+        except ValueError:
+            info = {"error": (p.stderr or p.stdout)[-400:]}
+        out = dict(name=name, level="bounded", bound=bound, result=info, violation=(p.returncode == 1), error=(p.returncode not in (0, 1)))
+        if p.returncode == 1:
+            os.makedirs(os.path.join(here, "replays"), exist_ok=True)
+            path = os.path.join(here, "replays", rfile)
+            json.dump(dict(obligation="bounded:" + script, witness=info,
+                           replay_cmd="/venv/bin/python %s %s %s" % (os.path.join(here, "bounded", script), check.repo.root, " ".join(args))),
+                      open(path, "w"), indent=1)
+            out["replay"] = path
+        outs.append(out)
+    return outs
